@@ -91,10 +91,11 @@ def parsePipeExpr (expr : Str) : PipeExpr :=
     | [] => { initial := trimmed, segs := [] }
     | first :: rest => { initial := trimSpace first, segs := rest.map (fun p => classifySegment (trimSpace p)) }
 
-/-- `strconv.ParseBool` -/
+/-- boolean literals of an argument list: `true` and `false` only (fix: the other spellings strconv.ParseBool accepts — t, f, T, F, True … —
+    are variable names) -/
 def parseBool (s : Str) : Option Bool :=
-  if ["1", "t", "T", "TRUE", "true", "True"].any (fun x => x.toList == s) then some true
-  else if ["0", "f", "F", "FALSE", "false", "False"].any (fun x => x.toList == s) then some false
+  if s == "true".toList then some true
+  else if s == "false".toList then some false
   else none
 
 /-- decimal floats of the form digits '.' digits (what the generators use); printed form as Go prints it is supplied as-is -/
